@@ -48,7 +48,13 @@ def _get(V):
         job.fields["process"] = BoundMethod(V.cls(JOB).ns["_process_iter"], job)
     dcls = ClassV("SomeDriver", bases=[I.builtins["object"]])
     dcls.compute_mro()
+    # the driver class may carry class-level defaults (shared by all its instances): they are merged, never modified
+    cls_env = V.choose(["none", "class-level-envars"], "class-environment")
+    clsvars = DictV([("CLSVAR", Opaque("obj:class-default"))])
+    if cls_env != "none":
+        dcls.ns["envars"] = clsvars
     d1, d2 = mk_driver(V, "d1", dcls), mk_driver(V, "d2", dcls)
+    d1.fields["envars"] = DictV(list(zip(d1.fields["envars"].keys, d1.fields["envars"].vals)) + [("ONLY1", Opaque("obj:only-d1"))])
     shared_before = dict(job.fields)
     V.witness(lambda ev: {"op": "two-drivers", "explicit": explicit, "vectorized": vectorized,
                           "d1": [ev(d1.fields["executable"]), ev(d1.fields["nprocs"])], "d2": [ev(d2.fields["executable"]), ev(d2.fields["nprocs"])],
@@ -68,6 +74,8 @@ def _get(V):
         env = b.fields.get("envars")
         ok_env = isinstance(env, DictV) and "VAR" in env.keys and env.vals[env.keys.index("VAR")] is d.fields["envars"].vals[0]
         V.ensure(f"post/{nm}-driver:environment", z3.BoolVal(bool(ok_env)))
+        want_keys = {"VAR"} | ({"ONLY1"} if d is d1 else set()) | ({"CLSVAR"} if cls_env != "none" else set()) | ({"JOBVAR"} if explicit else set())
+        V.ensure(f"post/{nm}-driver:environment-is-exactly-class+instance+job", z3.BoolVal(isinstance(env, DictV) and set(env.keys) == want_keys))
         if explicit:
             V.ensure(f"post/{nm}-driver:job's-own-environment-wins", z3.BoolVal(isinstance(env, DictV) and "JOBVAR" in env.keys))
         V.ensure(f"post/{nm}-driver:prep-post-return_files-kept",
@@ -77,6 +85,8 @@ def _get(V):
             p = b.fields.get("prepare")
             V.ensure(f"post/{nm}-driver:vectorized-job-prepares-through-the-bound-job",
                      z3.BoolVal(isinstance(p, BoundMethod) and p.self is b and p.func.name == "_prepare_iter"))
+    V.ensure("frame/class-level-and-instance-environments-not-modified",
+             z3.BoolVal(clsvars.keys == ["CLSVAR"] and d2.fields["envars"].keys == ["VAR"] and d1.fields["envars"].keys == ["VAR", "ONLY1"]))
     V.ensure("frame/shared-descriptor-not-modified",
              z3.BoolVal(all(job.fields.get(k) is v or job.fields.get(k) == v for k, v in shared_before.items() if k not in ("prepare", "process"))
                         and set(job.fields) == set(shared_before)))
@@ -251,3 +261,87 @@ def _run_local(V):
 
 def Z0(x):
     return to_z3(x, "int") if x is not None else z3.IntVal(0)
+
+
+# ------------------------------------------------------------------------------------------ JobInput: hash and dump/load
+JIN = "molli.pipeline.job:JobInput"
+
+
+def _canon(x):
+    """what msgpack keeps of a value: maps, arrays (tuples and lists alike), and the leaves (str stays str, bytes stays bytes)"""
+    if isinstance(x, DictV):
+        return ("map", tuple((k, _canon(v)) for k, v in zip(x.keys, x.vals)))
+    if isinstance(x, (ListV, tuple)):
+        return ("array", tuple(_canon(v) for v in (x.items if isinstance(x, ListV) else x)))
+    return ("leaf", x)
+
+
+def _same_canon(a, b):
+    if a[0] != b[0]:
+        return False
+    if a[0] == "leaf":
+        x, y = a[1], b[1]
+        return x is y or (type(x) is type(y) and not isinstance(x, (SV, Obj, Opaque)) and x == y)
+    if len(a[1]) != len(b[1]):
+        return False
+    if a[0] == "map":
+        return all(k1 == k2 and _same_canon(v1, v2) for (k1, v1), (k2, v2) in zip(a[1], b[1]))
+    return all(_same_canon(v1, v2) for v1, v2 in zip(a[1], b[1]))
+
+
+def _decanon(c):
+    if c[0] == "map":
+        return DictV([(k, _decanon(v)) for k, v in c[1]])
+    if c[0] == "array":
+        return ListV([_decanon(v) for v in c[1]])
+    return c[1]
+
+
+@P.unit(f"{JIN}.hash", name="JobInput: the hash covers every field; dump then load gives an input with the same content and the same hash",
+        functions=[f"{JIN}.hash", f"{JIN}.dump", f"{JIN}.load"])
+def _jobinput(V):
+    I, st = V.I, V.st
+    packed = []
+    I.ext_models["msgpack.dumps"] = Builtin("msgpack.dumps", lambda i, a, k: packed.append(_canon(a[0])) or Opaque(f"obj:packed{len(packed)}"))
+    disk = {}
+
+    def m_dump(i, a, k):
+        disk["blob"] = _canon(a[0])
+    I.ext_models["msgpack.dump"] = Builtin("msgpack.dump", m_dump)
+    I.ext_models["msgpack.load"] = Builtin("msgpack.load", lambda i, a, k: _decanon(disk["blob"]))
+    I.ext_models["hashlib.sha3_512"] = Builtin("sha3_512", lambda i, a, k: Obj(I.builtins["object"], {"digest": Builtin("digest", lambda i2, a2, k2: Opaque("digest", (a[0],)))}, tag="sha"))
+    I.ext_models["base64.urlsafe_b64encode"] = Builtin("b64", lambda i, a, k: Opaque("b64", (a[0],)))
+    st.ghost["open_hook"] = lambda I_, path, mode: Obj(I.StreamCls, {"path": path, "mode": mode, "closed": False, "owned": True}, tag="stream")
+    text_file = V.choose([True, False], "an-input-file-given-as-text")
+    timeout = V.choose([None, "sym"], "timeout")
+    fields = {"jid": V.sym("jid", "str"),
+              "commands": ListV([(V.sym("cmd0", "str"), V.sym("cname0", "str")), (V.sym("cmd1", "str"), None)]),
+              "files": DictV([("in.txt", V.sym("text", "str") if text_file else V.sym("blob0", "bytes")), ("in.bin", V.sym("blob", "bytes"))]),
+              "return_files": (V.sym("rf0", "str"), V.sym("rf1", "str")),
+              "envars": DictV([("OMP_NUM_THREADS", V.sym("env0", "str"))]),
+              "timeout": V.sym("timeout", "real") if timeout else None}
+    cls = V.cls(JIN)
+    V.witness(lambda ev: {"op": "jobinput", "text_file": text_file, "signature": "jobinput"})
+    V.cover()
+    inp = I.call(cls, [], dict(fields))
+    I.target = f"{JIN}.hash"
+    h1 = I.getattr_(inp, "hash")
+    ok = len(packed) == 1 and packed[0][0] == "map"
+    V.ensure("hash/is-taken-over-one-packed-record", z3.BoolVal(ok))
+    if ok:
+        rec = dict(packed[0][1])
+        V.ensure("hash/covers-every-field-of-the-input", z3.BoolVal(set(rec) == set(fields) and all(_same_canon(rec[k], _canon(v)) for k, v in fields.items())))
+    I.target = f"{JIN}.dump"
+    d = V.method(inp, "dump", [V.sym("fn", "str")])
+    I.target = f"{JIN}.load"
+    try:
+        back = I.call(I.getattr_(cls, "load"), [V.sym("fn2", "str")], {})
+    except PyExc:
+        V.ensure("roundtrip/load-accepts-what-dump-wrote", z3.BoolVal(False))
+        return
+    V.ensure("roundtrip/load-accepts-what-dump-wrote", z3.BoolVal(d.returned and isinstance(back, Obj) and back.cls is cls))
+    same = all(_same_canon(_canon(back.fields.get(k)), _canon(v)) for k, v in fields.items())
+    V.ensure("roundtrip/loaded-input-has-the-same-content-(as-msgpack-sees-it)", z3.BoolVal(bool(same)))
+    del packed[:]
+    h2 = I.getattr_(back, "hash")
+    V.ensure("roundtrip/loaded-input-has-the-same-hash", z3.BoolVal(len(packed) == 1 and ok and _same_canon(packed[0], _canon(DictV(list(fields.items()))))))
